@@ -340,3 +340,41 @@ func c13Run(c *core.Ctx, long bool) {
 	}
 	c.Class(fmt.Sprintf("%s/n%d/%s", scn, n, ts))
 }
+
+// storageTrackingRun: a simulation-length Storage run whose release tracks a sloped curve while the volume cycles with
+// wet and dry seasons (the long-run scenario of C13), for checks that need many sub-steps in one call.
+func storageTrackingRun(r *core.Rand, T int) *MRun {
+	model := "Storage"
+	desc := NewModel(model).Description()
+	n := r.IntRange(2, 6)
+	ps := storagePSet(desc, r, n)
+	ps[paramIndex(desc, "DeltaT")][0] = 86400
+	tbl := func(name string) []float64 { return ps[paramIndex(desc, name)] }
+	vols, areas, levels, minRel, maxRel := tbl("volumes"), tbl("areas"), tbl("levels"), tbl("minRelease"), tbl("maxRelease")
+	vmax := vols[n-1]
+	qcap := vmax / 86400 * r.Range(0.05, 0.2)
+	pw := r.Range(0.5, 2)
+	for i := 0; i < n; i++ {
+		minRel[i] = 0
+		maxRel[i] = qcap * math.Pow(vols[i]/vmax, pw)
+	}
+	in := GenInputs(model, r, T, ps)
+	iI := func(s string) int { return indexOf(desc.Inputs, s) }
+	season := r.IntRange(10, 60)
+	for t := 0; t < T; t++ {
+		f := r.Range(0, 0.3)
+		if (t/season)%2 == 0 {
+			f = r.Range(0.8, 1.5)
+		}
+		in[iI("inflow")][t] = qcap * f
+		in[iI("demand")][t] = qcap*2 + 1
+		if r.Bool(0.2) {
+			in[iI("demand")][t] = qcap * r.Range(0.02, 0.2)
+		}
+		if r.Bool(0.7) {
+			in[iI("rainfall")][t], in[iI("pet")][t] = 0, 0
+		}
+	}
+	v0 := vmax * r.Range(0.1, 1)
+	return &MRun{Model: model, N: 1, T: T, Sets: []PSet{ps}, Inputs: [][][]float64{in}, States: [][]float64{{v0, interpTable(v0, vols, levels), interpTable(v0, vols, areas)}}}
+}
